@@ -969,10 +969,10 @@ static void runHrpf(const Case &c) {
 // position table (run-length coded, with the `endings` bit), the distinct stream entries, the
 // decoding subtrees, and a trace of `processChunk` over texts encoded with the same codewords;
 // re-validated and re-run by the Lean driver (`ctchk`).
-static void dumpChunkTable(DecodingTable *T, Codeword *cw, const vector<string> &texts, uint e0) {
+static void dumpChunkTable(DecodingTable *T, Codeword *cw, StatCoder *coder, const vector<string> &texts, uint e0) {
   uint k = T->k;
   size_t entries = (size_t)1 << k;
-  string scw, spos, sent, strees, sruns;
+  string scw, spos, sent, strees, sruns, sencs;
   for (uint i = 0; i < 256; i++) {
     char b[40]; snprintf(b, sizeof b, "%s%u:%x", i ? "," : "", cw[i].bits, cw[i].codeword); scw += b;
   }
@@ -1021,8 +1021,16 @@ static void dumpChunkTable(DecodingTable *T, Codeword *cw, const vector<string> 
       }
     }
     if (nb) buf.push_back((uchar)(acc << (8 - nb)));
-    if (ti) sruns += "|";
-    if (!ok) { sruns += "noenc"; continue; }
+    if (ti) { sruns += "|"; sencs += "|"; }
+    if (!ok) { sruns += "noenc"; sencs += "noenc"; continue; }
+    {
+      // the real encoder on the same text: its bytes are what the table is run on
+      string copy = tx; uint encLen = 0, off = 0;
+      uchar *e = coder->encodeString((uchar *)copy.data(), (uint)copy.size(), &encLen, &off);
+      sencs += (encLen ? hex(e, encLen) : string("-")) + ":" + std::to_string(off);
+      buf.assign(e, e + encLen);
+      delete[] e;
+    }
     vector<uchar> guard(buf.size() + 8, 0);       // the bucket bytes with a small tail
     memcpy(guard.data(), buf.data(), buf.size());
     vector<uchar> str(tx.size() + 96, 0);
@@ -1045,8 +1053,8 @@ static void dumpChunkTable(DecodingTable *T, Codeword *cw, const vector<string> 
     }
     sruns += run.empty() ? "-" : run;
   }
-  emit("CT k=%u cw=%s pos=%s ent=%s trees=%s runs=%s", k, scw.c_str(), spos.c_str(), sent.empty() ? "-" : sent.c_str(),
-       strees.empty() ? "-" : strees.c_str(), sruns.empty() ? "-" : sruns.c_str());
+  emit("CT k=%u cw=%s pos=%s ent=%s trees=%s runs=%s encs=%s", k, scw.c_str(), spos.c_str(), sent.empty() ? "-" : sent.c_str(),
+       strees.empty() ? "-" : strees.c_str(), sruns.empty() ? "-" : sruns.c_str(), sencs.empty() ? "-" : sencs.c_str());
 }
 
 static void runChunks(const Case &c) {
@@ -1065,18 +1073,61 @@ static void runChunks(const Case &c) {
       int which = atoi(op[1].c_str()); uint e0 = (uint)atoi(op[2].c_str());
       vector<string> texts;
       if (op.size() > 3 && op[3] != "-") for (auto &h : splitc(op[3])) texts.push_back(unhex(h));
-      DecodingTable *T = nullptr; Codeword *cw = nullptr;
+      DecodingTable *T = nullptr; Codeword *cw = nullptr; StatCoder *coder = nullptr;
       const string &k = c.kind;
-      if (k == "HTFC") { auto *x = (StringDictionaryHTFC *)d; T = x->table; cw = x->codewords; }
-      else if (k == "HHTFC") { auto *x = (StringDictionaryHHTFC *)d; T = which ? x->tableHU : x->tableHT; cw = which ? x->codewordsHU : x->codewordsHT; }
-      else if (k == "RPHTFC") { auto *x = (StringDictionaryRPHTFC *)d; T = x->tableHT; cw = x->codewordsHT; }
-      else if (k == "HASHHF") { auto *x = (StringDictionaryHASHHF *)d; T = x->table; cw = x->codewords; }
-      else if (k == "HASHUFFDAC") { auto *x = (StringDictionaryHASHUFFDAC *)d; T = x->table; cw = x->codewords; }
-      if (!T || !cw) { emit("ERR no-table"); continue; }
-      dumpChunkTable(T, cw, texts, e0);
+      if (k == "HTFC") { auto *x = (StringDictionaryHTFC *)d; T = x->table; cw = x->codewords; coder = x->coder; }
+      else if (k == "HHTFC") { auto *x = (StringDictionaryHHTFC *)d; T = which ? x->tableHU : x->tableHT; cw = which ? x->codewordsHU : x->codewordsHT; coder = which ? x->coderHU : x->coderHT; }
+      else if (k == "RPHTFC") { auto *x = (StringDictionaryRPHTFC *)d; T = x->tableHT; cw = x->codewordsHT; coder = x->coderHT; }
+      else if (k == "HASHHF") { auto *x = (StringDictionaryHASHHF *)d; T = x->table; cw = x->codewords; coder = x->coder; }
+      else if (k == "HASHUFFDAC") { auto *x = (StringDictionaryHASHUFFDAC *)d; T = x->table; cw = x->codewords; coder = x->coder; }
+      if (!T || !cw || !coder) { emit("ERR no-table"); continue; }
+      dumpChunkTable(T, cw, coder, texts, e0);
     } else emit("ERR unknown-op");
   }
   delete d;
+}
+
+// Size sweep: for every n in lo..hi (step) a dictionary of the case's kind is built from the first n
+// strings, saved, reloaded and probed (locate, extract of the answer, and for the order-preserving kinds
+// extract by rank) on the built and on the reloaded object; the result is a summary. Field widths,
+// sampling steps and bit-array lengths cross their powers of two and word sizes somewhere in the range.
+static void runSweep(const Case &c) {
+  for (auto &op : c.ops) {
+    g_op++;
+    if (op[0] != "sweep") { emit("ERR unknown-op"); continue; }
+    size_t lo = strtoull(op[1].c_str(), nullptr, 10), hi = strtoull(op[2].c_str(), nullptr, 10), step = strtoull(op[3].c_str(), nullptr, 10);
+    bool ordered = !(isHashKind(c.kind) || c.kind == "XBW");
+    size_t runs = 0, bad = 0, first = 0; string what;
+    for (size_t n = lo; n <= hi && n <= c.strs.size(); n += step) {
+      Case sub = c;
+      sub.strs.assign(c.strs.begin(), c.strs.begin() + n);
+      StringDictionary *d = construct(sub);
+      if (!d) { emit("ERR cannot-construct"); return; }
+      string img = saveImage(d);
+      std::stringstream ss(img, std::ios::in | std::ios::binary);
+      StringDictionary *d2 = loadOwn(c.kind, ss, 1);
+      bool ok = d2 != nullptr && d->numElements() == n && d2->numElements() == n;
+      string why = ok ? "" : "count";
+      size_t probes[6] = {0, n / 3, n / 2, (2 * n) / 3, n - 2 < n ? n - 2 : 0, n - 1};
+      for (int which = 0; ok && which < 2; which++) {
+        StringDictionary *x = which ? d2 : d;
+        for (size_t pi = 0; ok && pi < 6; pi++) {
+          size_t i = probes[pi];
+          Pat p(sub.strs[i]);
+          unsigned long id = x->locate(p.p, (uint)p.n);
+          if (id == 0 || id > n || (ordered && id != i + 1)) { ok = false; why = which ? "locate-reloaded" : "locate-built"; break; }
+          uint l = 0; uchar *e = x->extract(id, &l);
+          if (!e || string((char *)e) != sub.strs[i] || l != sub.strs[i].size()) { ok = false; why = which ? "extract-reloaded" : "extract-built"; }
+          delete[] e;
+        }
+      }
+      if (ok && d2) { string img2 = saveImage(d2); if (img2 != img) { ok = false; why = "resave"; } }
+      runs++;
+      if (!ok) { bad++; if (!first) { first = n; what = why; } }
+      delete d; delete d2;
+    }
+    emit("SW runs=%zu bad=%zu first=%zu%s%s", runs, bad, first, what.empty() ? "" : " ", what.c_str());
+  }
 }
 
 // ---------------------------------------------------------------------------
@@ -1090,6 +1141,7 @@ static void runCase(const Case &c) {
   else if (c.stream == "repair") runRePair(c);
   else if (c.stream == "dac") runDac(c);
   else if (c.stream == "chunks") runChunks(c);
+  else if (c.stream == "sweep") runSweep(c);
   else if (c.stream == "rpdac") { if (c.kind == "HASHRPDAC") runHrpdac(c); else if (c.kind == "HASHRPF") runHrpf(c); else runRpdac(c); }
   else emit("ERR unknown-stream %s", c.stream.c_str());
 }
